@@ -51,6 +51,8 @@ class RouterDomain(EvDomain):
             if any(isinstance(x, Sym) and x.name == 'children.find' for x in ops_) and any(isinstance(x, Sym) and x.name.endswith('.end') for x in ops_):
                 v = self.atom('found')
                 if v is not None: return (v if base == 'operator!=' else not v)
+        if q == 'std::max' and len(vals) == 2: return Sym('max(' + ','.join(sorted(repr(v) for v in vals)) + ')')
+        if q == 'std::accumulate': return Lin.sym(f'accum@{n.id}')
         if on == 'm_children' and base == 'empty': return self._b('children_empty', n)
         if on == 'm_children' and base == 'find': return Sym('children.find')
         return super().call_result(ex, n, q, base, on, ov, vals, st, fr)
@@ -547,12 +549,27 @@ class RouterAnalysis:
             self.add('SH.4', None, 'depth traversal', dp.shortloc(), 'Node::depth does not descend by calling itself: not followed')
         elif dp is not None:
             res = run_paths(F, dp, RouterDomain())
-            okd = True; seen = 0; unfollowed = False
+            okd = True; seen = 0; unfollowed = False; fold_ok = False
             for P, E in res:
                 if P.end == 'loop': continue
                 it, _ = children_loop_iterations(dp, E)
                 rec = [e for e in E if e.kind == 'call' and strip_targs(e.name) == f'{NODE}::depth']
                 algo = [e for e in E if e.kind == 'call' and e.name in ('std::accumulate', 'std::max_element', 'std::for_each', 'std::transform_reduce', 'std::reduce')]
+                acc = [e for e in algo if e.name == 'std::accumulate' and len(e.args) == 4 and isinstance(e.args[0], Sym) and e.args[0].name == 'm_children.begin' and isinstance(e.args[1], Sym) and e.args[1].name == 'm_children.end' and isinstance(e.args[3], Closure)]
+                if len(algo) == 1 and acc:
+                    # a left fold over all children: init 0, step = max(accumulator, child.depth()), result + 1
+                    e = acc[0]; clo = e.args[3]
+                    okf = as_lin(e.args[2]) == Lin.const(0) and as_lin(P.ret) == Lin.sym(f'accum@{e.node.id}') + Lin.const(1)
+                    steps = Exec(F, RouterDomain()).run_closure(clo, args=[Lin.sym('acc'), Sym('m_children.front')], this_path=('this',))
+                    for SP in steps:
+                        from evdom import _flatten
+                        SE = _flatten(SP)
+                        dcalls = [x for x in SE if x.kind == 'call' and strip_targs(x.name) == f'{NODE}::depth']
+                        r_ = SP.ret
+                        want = 'max(' + ','.join(sorted(['acc', f'depth@{dcalls[0].node.id}'])) + ')' if len(dcalls) == 1 else None
+                        if not (isinstance(r_, Sym) and r_.name == want): okf = False
+                    if okf: seen += 1; fold_ok = True; continue
+                    unfollowed = True; continue
                 if algo: unfollowed = True; continue
                 if len(rec) != it: okd = False
                 if it == 0 and as_lin(P.ret) != Lin.const(1): okd = False
@@ -562,7 +579,7 @@ class RouterAnalysis:
             inst = f'depth = 1 + max over all children (0 for none) [{seen} paths]'
             if mn: self.add('SH.4', False, inst, mn[0].shortloc(), 'depth is not one more than the deepest child (the minimum over the children is taken)', key='SH.4|depth')
             elif unfollowed: self.add('SH.4', None, inst, dp.shortloc(), 'the maximum over the children is computed by a std algorithm: not followed')
-            elif okd and len(mx) == 1: self.add('SH.4', True, inst, dp.shortloc(), key='SH.4|depth')
+            elif okd and (len(mx) == 1 or fold_ok): self.add('SH.4', True, inst, dp.shortloc(), key='SH.4|depth')
             elif not okd: self.add('SH.4', False, inst, dp.shortloc(), 'depth is not one more than the deepest child', key='SH.4|depth')
             else: self.add('SH.4', None, inst, dp.shortloc(), 'how the maximum is taken was not recognised')
 
